@@ -693,6 +693,10 @@ pub fn run_sweep(thorough: bool, seed: u64, nthreads: usize, deadline: Instant, 
             }
         }
     }
+    if thorough {
+        // beyond "tens of thousands": probes the known stack limit of all-Ephemeral chains (known_findings.txt)
+        cases.push(("chain_ephlong".to_string(), 60000, "build".to_string()));
+    }
     // large first
     cases.sort_by_key(|c| std::cmp::Reverse(c.1));
     let exe = std::env::current_exe().unwrap();
@@ -767,7 +771,8 @@ pub fn run_sweep(thorough: bool, seed: u64, nthreads: usize, deadline: Instant, 
         match code {
             None => {
                 // died on a signal (stack overflow -> SIGSEGV / SIGABRT)
-                acc.violation(Witness { prop: "C19".into(), rule: "subprocess-died-on-signal".into(), sig: format!("subprocess-died-on-signal|{}", c), detail: format!("{} with {} jobs, cascade {}: the process died on a signal (stack exhaustion / abort)", sh, sz, c), replay_args: args.clone(), trace: out.clone() });
+                let bucket = if *sz >= 50000 { ">=50000" } else { "<50000" };
+                acc.violation(Witness { prop: "C19".into(), rule: "subprocess-died-on-signal".into(), sig: format!("subprocess-died-on-signal|{}:{}:{}", sh, bucket, c), detail: format!("{} with {} jobs, cascade {}: the process died on a signal (stack exhaustion / abort)", sh, sz, c), replay_args: args.clone(), trace: out.clone() });
                 acc.violation(Witness { prop: "C06".into(), rule: "subprocess-died-on-signal".into(), sig: format!("subprocess-died-on-signal|{}", c), detail: format!("{} with {} jobs, cascade {}: the process died on a signal", sh, sz, c), replay_args: args, trace: out.clone() });
             }
             Some(0) => {
